@@ -133,6 +133,13 @@ def gen_disj(full):
     yield Case('DISJ', Program([R('T', x, y, body=b1), R('T', named={'col1': x, 'col0': y}, body=b1)]), ['T'])
     yield Case('DISJ', Program([R('T', named={'col1': x, 'col0': y}, body=b1), R('T', x, y, body=b1)]), ['T'])
     yield Case('DISJ', Program([R('T', x, y, named={'z': N(0)}, body=b1), R('T', named={'z': N(1), 'col1': x, 'col0': y}, body=b1), R('T', y, named={'col1': N(5), 'z': x}, body=b1)]), ['T'])
+  # two (three) disjunctions conjoined in one rule: the DNF is the product of the alternatives, in either conjunct order
+  xs = [(Lit('B', x),), (Lit('A', x, N(1)),), (Lit('A', N(1), x),)]; ys = [(Lit('B', y),), (Lit('A', y, y),), (Lit('A', N(2), y),)]
+  for (p1, p2), (q1, q2) in itertools.product(itertools.permutations(xs, 2), itertools.permutations(ys, 2)):
+    yield Case('DISJ', Program([R('T', x, y, body=(('or', (p1, p2)), ('or', (q1, q2))))]), ['T'])
+    if full or (p1, q1) == (xs[0], ys[0]):
+      yield Case('DISJ', Program([R('T', x, y, body=(('or', (q1, q2)), Cmp('<=', x, y), ('or', (p1, p2))))]), ['T'])
+      yield Case('DISJ', Program([R('T', x, y, z, body=(('or', (p1, p2)), ('or', (q1, q2)), ('or', ((Lit('B', z),), (Eq(z, N(5)),), (Lit('A', z, x),)))))]), ['T'])
   # three alternatives, three rules
   for b1, b2, b3 in itertools.product(bodies[:4], repeat=3):
     yield Case('DISJ', Program([R('T', x, y, body=(('or', (b1, b2, b3)),))]), ['T'])
